@@ -60,7 +60,7 @@ info = {{"shapes": {{str(k): list(v) for k, v in ri.shapes.items()}},
 try:
     from pipefunc.map import load_xarray_dataset
     ds = load_xarray_dataset(run_folder=folder)
-    info["xr"] = {{str(k): [list(map(str, ds[k].dims)), progs.to_nested(ds[k].values)] for k in ds.data_vars}}
+    info["xr"] = {{str(k): [list(map(str, ds[k].dims)), progs.xr_nested(ds[k].values)] for k in ds.data_vars}}
     info["xr"]["__coords__"] = {{str(k): [str(x) for x in ds.coords[k].values.tolist()] for k in ds.coords
                                 if ds.coords[k].ndim == 1}}
 except Exception as e:
